@@ -145,7 +145,7 @@ def main():
             meta = os.path.join(sd, d, "meta.json")
             if os.path.exists(meta):
                 mj = json.load(open(meta))
-                items.append({"name": "seeded-" + d, "props": mj.get("check_with", [mj["property"]]), "expect": "detect", "patch": os.path.join(sd, d, "patch.diff"), "layers": mj.get("layers"), "why": mj.get("needs", "")})
+                items.append({"name": "seeded-" + d, "props": mj.get("check_with", [mj["property"]]), "expect": mj.get("expect", "detect"), "patch": os.path.join(sd, d, "patch.diff"), "layers": mj.get("layers"), "why": mj.get("needs", "")})
     if only:
         items = [i for i in items if i["name"] in only]
     if a.start:
@@ -187,7 +187,10 @@ def main():
             row["caught_by"] = caught_by
             row["silent_in"] = silent_in
             row["signatures"] = sigs_all[:6]
-            if it["expect"] == "detect":
+            if it["expect"] == "out_of_scope":
+                # breaks something the twenty properties do not state (see meta.json scope_note): either outcome is fine
+                row["status"] = "out-of-scope (%s)" % ("flagged" if caught_by else "silent")
+            elif it["expect"] == "detect":
                 row["status"] = "DETECTED" if caught_by else "MISSED"
             else:
                 row["status"] = "silent-as-expected" if not caught_by else "FALSE-ALARM"
